@@ -205,6 +205,24 @@ def side_case(seed):
     return None, desc
 
 
+def f16b_witness():
+    """known finding F16b, fixed input: the exact solution (TT rank 2) as initial guess and max_rank=1 -- the truncation after
+    the two-site solve returns a rank-1 train, which is worse than the guess"""
+    nrng = np.random.default_rng(16)
+    G = nrng.standard_normal((4, 4))
+    Am = G @ G.T / 4 + np.eye(4)
+    A = TT(Am.reshape(2, 2, 2, 2))
+    xs = np.array([1.0, 0.3, -0.2, 0.9])                 # as a 2 x 2 matrix: rank 2
+    b = TT((Am @ xs).reshape(2, 2, 1, 1))
+    g = TT(xs.reshape(2, 2, 1, 1))
+    e0 = energy(Am, xs, g)
+    s = sle.mals(A, g, b, repeats=1, max_rank=1)
+    e1 = energy(Am, xs, s)
+    if e1 > e0 + 1e-8:
+        return 'mals(max_rank=1) started at the exact solution returns an iterate with energy-norm error %.4g (guess: %.1g)' % (e1, e0)
+    return None
+
+
 def run(ctx):
     quick = ctx.tier == 'quick'
     lib.stage_proof(ctx, PROP_FILES, ['Check/C07.vo'])
@@ -246,6 +264,11 @@ def run(ctx):
         if msg:
             tags = desc.pop('tags', None) or {'op': desc.get('which'), 'clause': desc.get('clause')}
             ctx.fail('%s: %s' % (desc.get('which'), msg), {'gen': 'side_case', 'case_seed': cs, 'case': desc}, tags=tags)
+    msg = f16b_witness()
+    ctx.side_cases += 1
+    ctx.evaluations += 1
+    if msg:
+        ctx.fail('mals: ' + msg, {'gen': 'f16b_witness'}, tags={'solver': 'mals', 'max_rank_active': True, 'clause': 'descent'})
     return ctx.finish(level='proof', checker_cmd='make -C coq Props/C07.vo Check/C07.vo && coqc Props/C07.v', trusted=TRUSTED, explanation=RULE)
 
 
